@@ -37,7 +37,7 @@ var rtPkgs = []string{rtPath, rlePath, bitpackPath}
 var genPkgs = []string{genBase + "parse", genBase + "fields", genBase + "dremel", genBase + "gen", genBase + "structs"}
 
 // tcStructs: G_tc, package name -> root struct type.
-var tcStructs = [][2]string{{"alltypes", "Rec"}, {"doc", "Document"}, {"person", "Person"}, {"excluded", "Rec"}}
+var tcStructs = [][2]string{{"alltypes", "Rec"}, {"doc", "Document"}, {"person", "Person"}, {"excluded", "Rec"}, {"rfirst", "Rec"}}
 
 type Universe struct {
 	Repo, Verif, Tmp, ModDir string
